@@ -24,8 +24,39 @@ def declare(rep):
     rep.rule("C08.a", "only covfie::utility::read_binary<T> reads from a std::istream", floor=20)
     rep.rule("C08.b", "every read is followed by a stream-state test guarding all later stream operations, uses of the bytes read and the normal return; failure throws", floor=60)
     rep.rule("C08.c", "no assertion is reachable in a reader (assertion-enabled build)", floor=20)
+    rep.rule("C08.h", "exceptions raised while reading propagate: no stream/allocation/throw site unwinds into std::terminate", floor=20)
     rep.rule("C08.d", "header and footer words are compared with the expected constants; mismatch throws", floor=10)
     rep.rule("C08.e", "tagged layers read header first and footer last", floor=10)
+
+
+READER_SIDE = (io.READ, "_ZN5verif7io_read", "__cxa_throw", "_Znam", "_Znwm")
+TERMINATE = ("__clang_call_terminate", "_ZSt9terminatev")
+
+
+def terminating_unwinds(fj):
+    """invokes of stream/allocation/throw callees whose exceptional edge leads to std::terminate (a noexcept frame on the way)"""
+    fn = ir.Func(fj)
+    out = []
+    for b in fn.blocks:
+        t = b["insts"][-1]
+        if t["op"] != "invoke" or not (t.get("callee") or "").startswith(READER_SIDE):
+            continue
+        seen, work = set(), [t["unwind"]]
+        while work:
+            u = work.pop()
+            if u in seen:
+                continue
+            seen.add(u)
+            blk = fn.bid[u]
+            if any(i["op"] in ("call", "invoke") and (i.get("callee") or "") in TERMINATE for i in blk["insts"]):
+                out.append(t)
+                break
+            last = blk["insts"][-1]
+            if last["op"] == "invoke":
+                work.append(last["normal"])      # stay on the path that continues the unwinding
+            else:
+                work += fn.succs(blk)
+    return out
 
 
 def check_reader(rep, g, build):
@@ -46,6 +77,11 @@ def check_reader(rep, g, build):
         rep.fail("C08.c", inst, ir.where(asserts[0].inst), "an assertion can fail while reading (abort instead of exception)")
     else:
         rep.ok("C08.c", inst)
+    tu = terminating_unwinds(hr.func)
+    if tu:
+        rep.fail("C08.h", inst, ir.where(tu[0]), "an exception raised by %s while reading cannot propagate: a noexcept frame turns it into std::terminate (abort instead of exception)" % (tu[0].get("dcallee") or tu[0].get("callee"))[:60])
+    else:
+        rep.ok("C08.h", inst)
     # C08.a
     bad = [i for i in R if i["kind"] == "other-istream"]
     for i in R:
